@@ -182,6 +182,19 @@ pub fn build_space(g: &Grammar, thorough: bool) -> Vec<CDoc> {
             continue;
         }
         for (pi, p) in node.params.iter().enumerate() {
+            // (fixed parameters only: inside an identifier list an over-long word ends the list, and which diagnostic follows is
+            // a matter of where the list is taken to end)
+            if matches!(p.ty, vcore::grammar::PType::Ident) && matches!(g.elem(&node.tag).items.get(p.item), Some(vcore::grammar::Item::Single { .. })) {
+                // identifier lengths at the limit (1024 bytes), identifier shapes with dots and brackets
+                for (n, lit) in [("len-1023", "a".repeat(1023)), ("len-1024", "b".repeat(1024)), ("len-1025", "c".repeat(1025)), ("dotted-1024", format!("{}.{}", "d".repeat(511), "e".repeat(512))), ("one-char", "z".to_string())] {
+                    let mut d2 = b.clone();
+                    d2.doc.root.at_mut(&b.path).params[pi].text = lit;
+                    d2.label = format!("{} + ident({},{n})", b.label, p.field);
+                    d2.deviations = 1;
+                    all.push(d2);
+                }
+                continue;
+            }
             if !p.ty.is_int() {
                 continue;
             }
